@@ -168,6 +168,8 @@ def unit_potential_factor(twin=False):
         if outside:
             U.discharge_eq_real(r, "other_species.sum_z_unchanged", hy + [tm.not_(off_surface)], sz1, sz0)
     r.add("reach.iterations", DISCHARGED if n >= 2 else UNDECIDED, "symex", 0, "%d paths" % n, kind="vacuity")
+    from props import common as CM
+    CM.check_accumulator_init(r, fn0, PREP, CM.loop_node(fn0, 0), "sum_z", "charge_sum")
     # tail: coefficient of the potential term
     tail = _src_if(fn0, PREP, lambda t, x: t == "master_ptr != NULL" and any(y.get("kind") == "UnaryOperator" and y.get("opcode") == "++" for y in A.walk(x["inner"][1])))
     if tail is None:
